@@ -334,7 +334,7 @@ class C04(PropBase):
     trusted_base = [
         "Coq 8.16.1 kernel (vm_compute only in the non-vacuity Examples)",
         "walker model C05/Model.v (hand-written, correspondence-checked) and the stack builders of C04/Model.v",
-        "the CFI / mixed theorems are about the abstract *correct* oracles cfi_correct / mix_cfi_correct; evaluation of real STACK CFI text is C06's",
+        "the CFI / mixed theorems are about the abstract *correct* oracles cfi_correct / mix_cfi_correct and about cfi_rules, a hand-written evaluator of one rule family over an abstract rule table (compared with the code only through the Coq-built layouts: its computed walk = the chain = the real walker's frames); parsing and evaluation of real STACK CFI text is C06's",
         "extraction: ExtrOcamlBasic only; ocaml/zconv.ml + ocaml/c04/main.ml; harness/src/bin/c05.rs",
     ]
     manifest = {
@@ -345,13 +345,17 @@ class C04(PropBase):
                 "argument words, acceptable to instruction_seems_valid, padding not; CFI frames: arbitrary words, callee's lookup address inside a "
                 "module) is walked to exactly the generated chain — one frame per call with return address, instruction = ra - adj, sp, trust cfi/scan, "
                 "validity set (callee-saved forwarded through CFI frames, {ip, sp} after a scan), general registers carried through CFI frames — and the "
-                "walk stops at the generated end; c04_recovers_chain_partial_scan / _cfi / _cfi_any / _fp — one technique per walk (scan incl. mips32, "
+                "walk stops at the generated end; c04_recovers_chain_rules — the same with the CFI frames evaluated by cfi_rules, the evaluator of the rule "
+                "family `.cfa: sp N + .ra: .cfa pw - ^` (sp validity, u64 wrapping, the read of the return address, register-width checks), under the "
+                "boolean rules_ok (each CFI frame's callee covered by a record with N = the frame size, each scan frame's callee by none); "
+                "c04_recovers_chain_reached — for any oracle agreeing with the correct one on the frames the walk reaches; c04_callee_saved pins the "
+                "forwarded register sets; c04_recovers_chain_partial_scan / _cfi / _cfi_any / _fp — one technique per walk (scan incl. mips32, "
                 "CFI, frame-pointer chains for x86, amd64 with/without the Windows slack scan, arm/iOS, arm64); c04_constants pins the documented "
                 "windows / slack. Frame-pointer frames inside a mix, STACK WIN and real STACK CFI text are covered by the correspondence run only: "
                 "depth 1..64 stacks for every CPU x OS through the real walk_stack and the extracted model (incl. stacks laid out by the Coq builders "
                 "of the scan and mixed theorems), with an independent oracle comparing the frames with the generated chain.",
         "note": "Partial: the mixed theorem covers CFI and scan frames (not frame-pointer frames inside a mix); CFI is the abstract correct oracle in "
-                "the theorems, the evaluation of rule text is C06's / C07's model inside C05's walker in the run. STACK WIN: all-FPO stacks of unbounded "
+                "the theorems (c04_recovers_chain_rules evaluates one rule family over an abstract rule table, not rule text), the evaluation of rule text is C06's / C07's model inside C05's walker in the run. STACK WIN: all-FPO stacks of unbounded "
                 "depth are proved at C07 (c07_fpo_recovers_chain, on C07's model of walk_stack's loop with the translated from_ctx_and_args derivation); "
                 "frame-data programs, allocates_base_pointer = 1, mixes with STACK CFI and with scanned frames are covered by the run (d, e, f) through "
                 "the whole symbol-file model (C09 grammar + C07 evaluation inside C05's walker). "
